@@ -1,6 +1,6 @@
 (* C10 — pending queue integrity and uniqueness of validator identities. *)
 From stdpp Require Import gmap.
-Require Import Model.Base Model.State Model.Staking Model.Slashing Model.Poa Model.App proofs.L1More proofs.Inv proofs.InvPres proofs.InvMsgs proofs.InvHistory proofs.InvPending.
+Require Import Model.Base Model.State Model.Staking Model.Slashing Model.Poa Model.App proofs.L1More proofs.Inv proofs.InvPres proofs.InvMsgs proofs.InvHistory proofs.InvPending proofs.InvAdmit.
 
 (* a successful CreateValidator appends exactly the submitted application (operator, consensus key, rates,
    description); nothing in x/staking or x/slashing moves; it is neither a validator nor pending already *)
@@ -60,3 +60,15 @@ Proof.
   intros g bs Hg c. destruct (reachable_CI g bs Hg) as [HS [A B C D]]. fold c in HS, A, B, C, D.
   split; [exact A|]. split; [exact B|]. split; [exact C|]. split; [exact D|]. exact (si_cons _ HS).
 Qed.
+
+(* admission moves exactly that application into the validator set and out of the list: the record a successful SetPower creates
+   for a pending operator carries the application's consensus key, commission rates and description, minimum self-delegation 1,
+   the requested tokens, shares and self-delegation, and is bonded and not jailed; the list loses that entry and nothing else *)
+Theorem C10_admission_moves_exactly_the_application : forall c s v P u c' p,
+  SI (stk c) -> find_pending v (pending (poa c)) = Some p -> msg_set_power c s v P u = MOk c' ->
+  exists r, vals (stk c') !! v = Some r /\
+    v_cons r = p_cons p /\ v_rate r = p_rate p /\ v_maxrate r = p_maxrate p /\ v_maxchg r = p_maxchg p /\ v_moniker r = p_moniker p /\
+    v_msd r = 1 /\ v_jailed r = false /\ v_status r = Bonded /\ v_tokens r = cast_i64 P /\ v_shares r = cast_i64 P * dec_one /\
+    dels (stk c') !! v = Some (cast_i64 P * dec_one) /\
+    pending (poa c') = remove_first_pending v (pending (poa c)).
+Proof. exact admission_moves_the_application. Qed.
